@@ -189,12 +189,12 @@ class Region:
 
     def lo(self, s):
         if s.startswith("["):
-            return 0
+            return int(self.preds[s[1:-1]]) if s[1:-1] in self.preds else 0
         return self.domains[s][0][0]
 
     def hi(self, s):
         if s.startswith("["):
-            return 1
+            return int(self.preds[s[1:-1]]) if s[1:-1] in self.preds else 1
         return self.domains[s][-1][1]
 
     def split(self, source, cut):
@@ -209,7 +209,7 @@ class Region:
         return [a, b]
 
 
-def eval_regions(terms: Dict[str, Term], leaf, base: Region, max_regions=64):
+def eval_regions(terms: Dict[str, Term], leaf, base: Region, max_regions=64, decide=("PC",)):
     """Evaluate every term in every guard region.  Returns [(region, {name: value}, evaluator)]."""
     todo, done = [base], []
     while todo:
@@ -219,6 +219,12 @@ def eval_regions(terms: Dict[str, Term], leaf, base: Region, max_regions=64):
         be = BitEval(leaf, r)
         try:
             vals = {k: be.ev(t) for k, t in terms.items()}
+            for k in decide:
+                if k in vals:
+                    v = be.truth(vals[k])
+                    if isinstance(v, Pred):
+                        raise NeedPred(v.text)
+                    vals[k] = v
         except NeedSplit as ns:
             parts = r.split(ns.source, ns.cut)
             if len(parts) < 2:
@@ -386,12 +392,13 @@ class BitEval:
             c = v.to_const()
             if c is not None:
                 return LinV({}, c)
-            if len(v.fields) == 1 and v.fields[0][0] == 0:
+            if len(v.fields) == 1:
                 lo, w, atom = v.fields[0]
+                k = 1 << lo
                 if atom[0] == "src":
-                    return LinV({atom[1]: 1}, atom[2])
+                    return LinV({atom[1]: k}, atom[2] * k)
                 if atom[0] == "pred":
-                    return LinV({f"[{atom[1]}]": 1}, 0)
+                    return LinV({f"[{atom[1]}]": k}, 0)
             return None
         return None
 
@@ -441,6 +448,15 @@ class BitEval:
                 return self.truth(Pred(sg[0]))
             if sg:
                 raise NeedSplit(sg[0], -sg[1] if self.region.lo(sg[0]) < -sg[1] else -sg[1] + 1, "truthiness of a numeric value")
+            if len(v.coefs) == 1:
+                (s_, c_), = v.coefs.items()
+                if s_.startswith("["):
+                    raise NeedPred(s_[1:-1])
+                zero = -v.const / c_
+                if zero.denominator != 1:
+                    return True
+                z = int(zero)
+                raise NeedSplit(s_, z if self.region.lo(s_) < z else z + 1, "truthiness of a numeric value")
             return Top(f"truth of {v}")
         return v if isinstance(v, Top) else Top(f"truth of {v!r}")
 
@@ -518,6 +534,14 @@ class BitEval:
                 return a
             if isinstance(b, Top):
                 return b
+            if op in ("|", "&") and isinstance(a, (Pred, bool)) and isinstance(b, (Pred, bool)):
+                if isinstance(a, bool) or isinstance(b, bool):
+                    x, y = (a, b) if isinstance(a, bool) else (b, a)
+                    if op == "|":
+                        return True if x else y
+                    return y if x else False
+                parts = sorted([repr(a), repr(b)])
+                return Pred(f"({parts[0]} {'or' if op == '|' else 'and'} {parts[1]})")
             if op == "|":
                 return self.bor(a, b)
             if op == "&":
@@ -576,9 +600,10 @@ class BitEval:
                 rest = [v for v in vals if v is not True]
                 if len(rest) == 1:
                     return rest[0]
-                if all(isinstance(v, Pred) for v in rest):
-                    raise NeedPred(rest[0].text)
-                return Top("conjunction")
+                for v in rest:
+                    if isinstance(v, Pred):
+                        raise NeedPred(v.text)
+                return Top("conjunction of " + ", ".join(repr(v) for v in rest))
             if any(v is True for v in vals):
                 return True
             if all(v is False for v in vals):
@@ -586,9 +611,10 @@ class BitEval:
             rest = [v for v in vals if v is not False]
             if len(rest) == 1:
                 return rest[0]
-            if all(isinstance(v, Pred) for v in rest):
-                raise NeedPred(rest[0].text)
-            return Top("disjunction")
+            for v in rest:
+                if isinstance(v, Pred):
+                    raise NeedPred(v.text)
+            return Top("disjunction of " + ", ".join(repr(v) for v in rest))
         if k == "call":
             if call_is(t, "bool") and len(t[2]) == 1:
                 return self.truth(self.ev(t[2][0]))
